@@ -45,9 +45,26 @@ RULE = ('case = one search-space description. Exhaustive part (same for every '
         'log / rlog x groups of <= 3 ranges of one class: pinned min == max on '
         'awkward doubles, 1-3 ulps wide, ordinary, huge, signed, and hi - lo not '
         'representable; alone, next to a choice or in a conditional sub-space; '
-        'partitioned likewise). For each: full iteration vs '
+        'partitioned likewise), by the fixed custom family (enumerable custom '
+        'points = custom points with a successor function over a finite '
+        'sequence of genomes: groups of 3 of 16 hostile but legal genomes - '
+        'empty, blank, "0", "None", "False", "[]", "-1", "nan", NUL, newline, '
+        'non-ASCII, 5000 characters... - as an increasing sequence and in a '
+        'user order, each alone, right / left of a choice, '
+        'two custom points in one space, in a candidate of a single / multi '
+        'choice, in a candidate and again right of it; four one-genome '
+        'sequences alone and right of a choice) and by the fixed '
+        'infinite family (1..4 infinite elements - floats, custom points with '
+        'and without successor function, choices with an infinite candidate - '
+        'directly in ONE space, the root or a candidate, a finite choice '
+        'before / between / after them). Random descriptions make custom '
+        'points enumerable with probability 0.6 and have up to 5 root elements. '
+        'For each space that can be iterated to its end (choices and '
+        'enumerable custom points): full iteration vs '
         'the reference enumeration (set, order, count, strict increase, end), '
-        'space_size, next_dna from rebuilt DNAs, first_dna + DNA.iter_dna, '
+        'space_size (for every description, iterable or not: the number of '
+        'members, -1 as soon as one float or custom point is reachable), '
+        'next_dna from rebuilt DNAs (as built or sealed), first_dna + DNA.iter_dna, '
         'Sweeping as a history of setup() calls on ONE generator object (the '
         'main sweep on the fresh generator or after a use of 0, 1, 2 or all '
         'proposals, then further short uses; targets: the same spec object, an '
@@ -57,7 +74,10 @@ RULE = ('case = one search-space description. Exhaustive part (same for every '
         'from_numbers on reference members and on one-step corruptions (one per '
         'class of corruption and kind of decision point; extra children come as '
         '1, 2 or 3 children at any position below leaves - constant candidates, '
-        'floats, custom points, the constant root - and below inner nodes), '
+        'floats, custom points, the constant root - and below inner nodes; a '
+        'float may become NaN), each corruption also as a change in place '
+        '(rebind) of a member DNA that is bound to the spec, followed by '
+        'validate and by use_spec on the same spec object or an equal spec, '
         'random_dna membership (reference membership lo <= v <= hi, never the '
         'library validate) with a seeded random.Random and, for floats, with '
         'random.Random subclasses whose uniform() / random() return the extremes '
@@ -70,12 +90,17 @@ REQUIRED_COUNTERS = ['iter_full', 'size_checks', 'lt_checks', 'next_checks',
                      'member_validate', 'member_bind', 'nonmember_validate',
                      'nonmember_bind', 'random_dna_checks', 'sweeping_checks',
                      'sweeping_full', 'sweeping_reuse_checks',
-                     'random_dna_extreme_rng', 'random_generator_reused']
+                     'random_dna_extreme_rng', 'random_generator_reused',
+                     'enumerable_custom_specs', 'size_checks_infinite',
+                     'nonmember_mutated_bind', 'next_checks_sealed']
 ASSUMPTIONS = [
     'the reference enumerates depth first in decision order; membership = arity, index range, distinct, sorted, conditional sub-space, float range, str genome',
     'a DNA-shaped input is judged on the (value, children) shape that pg.DNA reports after construction, so inputs that normalise to a member count as members; corrupted trees that normalise to another non-member are keyed reshaped:tree',
     'rejection = any exception from validate/binding; acceptance = normal return',
-    'NaN floats and bool indices are not generated (left open by the property)',
+    'NaN is a member of no float range (it satisfies neither lo <= v nor v <= hi); bool indices are not generated (left open by the property)',
+    'an enumerable custom point is one whose user-given successor function walks a finite sequence of pairwise different strings; its members are still all strings (validate / binding are never asked to reject a string), its iteration is that sequence, and a space of choices and such points iterates their product in decision order; strict increase (DNA.__lt__) is demanded only when every such sequence increases, else the order is the user\'s and only set, count, pairwise difference and end are judged',
+    'every space with a reachable float or custom point reports size -1, whether it can be iterated or not (documented: "-1 for infinity")',
+    'sealing a DNA and changing a DNA in place with rebind are public operations on symbolic objects: a sealed member has the same successor, a bound DNA changed into a non-member must be rejected by the next use_spec / validate',
     'the scale of a float is a hint: it never changes the set of members; a generator whose uniform(a, b) returns a or b, or whose random() returns 0.0 or 1 - 2**-53, is an admissible random.Random',
     'setup(spec) starts a generator afresh whatever it was set up on and however much it proposed before: after it a Sweeping generator proposes the enumeration of spec from its first DNA',
     'random specs larger than random_max members are iterated on a prefix only; Sweeping is followed to its end for spaces of <= sweep_full members, else on its first sweep_prefix proposals',
@@ -141,7 +166,13 @@ def build(desc):
     return pg.geno.floatv(desc['lo'], desc['hi'], scale=desc.get('scale'),
                           location=loc, name=desc['name'])
   if desc['t'] == 'custom':
-    return S.build(desc)
+    if desc.get('values') is None:
+      return S.build(desc)
+    loc = pg.KeyPath.parse(desc['loc']) if desc['loc'] else pg.KeyPath()
+    vals = list(desc['values'])
+    return pg.geno.custom(hyper_type='Gen', next_dna_fn=successor_fn(vals),
+                          random_dna_fn=lambda r, previous_dna=None: pg.DNA(r.choice(vals)),
+                          location=loc, name=desc['name'])
   cands = [build(c) for c in desc['cands']]
   loc = pg.KeyPath.parse(desc['loc']) if desc['loc'] else pg.KeyPath()
   lits = list(desc['lits']) if desc['lits'] is not None else None
@@ -173,7 +204,12 @@ def float_key(desc):
 def show(desc):
   fl = G.float_elems(desc)
   scales = sorted({str(e.get('scale')) for e in fl})
-  return S.show(desc) + (' scale=' + '/'.join(scales) if fl and scales != ['None'] else '')
+  out = S.show(desc) + (' scale=' + '/'.join(scales) if fl and scales != ['None'] else '')
+  vals = [e['values'] for e in G.custom_elems(desc) if e.get('values') is not None]
+  if vals:
+    out += ' custom-values=' + '/'.join(
+        '[' + ','.join(string_name(v) for v in vs) + ']' for vs in vals)
+  return out
 
 
 def float_ranges():
@@ -290,6 +326,160 @@ class ExtremeRandom(pyrandom.Random):
     return a if self._low() else b
 
 
+# --------------------------------------------------------------------------
+# Custom decision points: hostile but legal genomes, enumerable points.
+# --------------------------------------------------------------------------
+
+# (name for witnesses, genome): every one is a str, hence a legal custom
+# decision; falsy, blank, words that read like other values, control and
+# non-ASCII characters, very long.
+STRINGS = [
+    ('empty', ''), ('blank', ' '), ('zero', '0'), ('none-word', 'None'),
+    ('false-word', 'False'), ('brackets', '[]'), ('minus-one', '-1'),
+    ('number', '0.5'), ('nan-word', 'nan'), ('nul', '\x00'),
+    ('newline', 'a\nb'), ('comma', 'x,y'), ('quotes', 'q\'"'),
+    ('non-ascii', '\u00e9\u65e5\u672c'), ('astral', '\U0001F600'),
+    ('long', 'x' * 5000), ('plain', 'abc'), ('a', 'a'), ('m', 'm'),
+]
+_STRING_NAMES = {v: n for n, v in STRINGS}
+HOSTILE = [v for n, v in STRINGS if n not in ('plain', 'a', 'm')]
+FOREIGN = []          # arguments a successor function did not expect
+
+
+def string_name(v):
+  return _STRING_NAMES.get(v) or 'str%d' % len(v)
+
+
+def brief(m):
+  """A member with its long genomes shortened (for samples and witnesses)."""
+  if m is None or isinstance(m, str):
+    return m
+  return [x if not isinstance(x, str) or len(x) <= 20 else '<%s>' % string_name(x)
+          for x in m]
+
+
+def briefs(ms):
+  return [brief(m) for m in ms]
+
+
+def successor_fn(values):
+  """The user's successor function of an enumerable custom point:
+  None -> first value -> ... -> last value -> None (the end)."""
+  def next_dna_fn(dna):
+    if dna is None:
+      return pg.DNA(values[0])
+    v = dna.value
+    if not isinstance(v, str) or v not in values:
+      FOREIGN.append(repr(v)[:60])
+      return None
+    i = values.index(v)
+    return pg.DNA(values[i + 1]) if i + 1 < len(values) else None
+  return next_dna_fn
+
+
+def customv(values=None):
+  """Custom description; `values` makes the point enumerable (read by `build`
+  and by the reference enumeration, not by reference membership: every str is
+  a member of a custom point)."""
+  e = S.custom()
+  if values is not None:
+    e['values'] = list(values)
+  return e
+
+
+def custom_family():
+  """Fixed descriptions with enumerable custom points: groups of 3 hostile
+  genomes as one increasing sequence and in a user order that is not
+  increasing, each in every embedding (alone, right and left of a choice, two
+  custom points in one space, in a candidate of a single and of a multi
+  choice, in a candidate and again right of it); four sequences of one genome
+  in the first two embeddings."""
+  seqs = []
+  for at in range(0, len(HOSTILE), 3):
+    grp = HOSTILE[at:at + 3]
+    inc = sorted(grp)
+    seqs.append(inc)
+    seqs.append(inc[1:] + inc[:1] if len(inc) > 1 else inc + ['m'])
+  ngroups = len(seqs)
+  seqs += [[v] for v in HOSTILE[:4]]          # (alone and next to a choice only)
+  one2 = lambda: S.choice(1, S.consts(2))
+  embed = [
+      lambda v, w: S.space(customv(v)),
+      lambda v, w: S.space(one2(), customv(v)),
+      lambda v, w: S.space(customv(v), one2()),
+      lambda v, w: S.space(customv(v), customv(w)),
+      lambda v, w: S.space(S.choice(1, [S.CONST, S.space(customv(v))])),
+      lambda v, w: S.space(S.choice(2, [S.space(customv(v)), S.CONST], False, False)),
+      lambda v, w: S.space(S.choice(1, [S.CONST, S.space(customv(v))]), customv(w)),
+  ]
+  out = []
+  for si, v in enumerate(seqs):
+    w = seqs[(si + 1) % len(seqs)]
+    for em in embed if si < ngroups else embed[:2]:
+      d = S.relocate(em(v, w))
+      d['custom_family'] = True
+      out.append(d)
+  return out
+
+
+def infinite_family():
+  """Fixed descriptions with 1..4 infinite elements (floats, custom points
+  with and without successor function, choices with an infinite candidate)
+  directly in ONE space: the root, or a candidate of a single / multi choice;
+  a finite choice stands before, between or after them."""
+  kinds = {
+      'F': lambda: floatv(0.0, 1.0),
+      'C': customv,
+      'E': lambda: customv(['a', 'b']),
+      'X': lambda: S.choice(1, [S.CONST, S.space(floatv(0.5, 2.0))]),
+  }
+  mixes = ['FFFF', 'CCCC', 'EEEE', 'FCFC', 'XFXE', 'EFCX']
+  out = []
+  for j in (1, 2, 3, 4):
+    for mi, mix in enumerate(mixes):
+      for nested in (0, 1):
+        elems = [kinds[ch]() for ch in mix[:j]]
+        at = (j + mi + nested) % (len(elems) + 1)
+        elems[at:at] = [S.choice(1, S.consts(3))]
+        if not nested:
+          d = S.space(*elems)
+        elif (j + mi) % 2:
+          d = S.space(S.choice(1, [S.CONST, S.space(*elems)]))
+        else:
+          d = S.space(S.choice(2, [S.space(*elems), S.CONST], False, True),
+                      S.choice(1, S.consts(2)))
+        d = S.relocate(d)
+        d['infinite_family'] = True
+        out.append(d)
+  return out
+
+
+def vary_customs(desc, rng):
+  """Makes some custom points of a random description (fresh dicts)
+  enumerable: 1-4 pairwise different genomes, increasing or in user order."""
+  for e in G.custom_elems(desc):
+    if rng.random() < 0.6:
+      vals = rng.sample(HOSTILE + ['abc', 'a', 'm'], rng.randint(1, 4))
+      if rng.random() < 0.6:
+        vals.sort()
+      e['values'] = vals
+
+
+def extras():
+  if not _EXTRAS:
+    _EXTRAS.extend(custom_family() + infinite_family())
+  return _EXTRAS
+
+
+_EXTRAS = []
+
+
+def my_extras(ctx):
+  """The custom and infinite families come last (earlier cases keep their
+  index, hence their seed)."""
+  return extras()[ctx.shard::ctx.nshards]
+
+
 def family(ctx):
   """Every description of gen/spaces.exhaustive() with <= max_dnas members,
   plus every single flat choice (k <= 3, n <= 4, all modes) of any size, plus
@@ -309,6 +499,8 @@ def setup(ctx):
   ctx.notes['family_size'] = len(fam)
   ctx.notes['family_members'] = sum(G.size(d) or 0 for d in fam)
   ctx.notes['float_family_size'] = len(floats())
+  ctx.notes['custom_family_size'] = len(custom_family())
+  ctx.notes['infinite_family_size'] = len(infinite_family())
 
 
 def my_part(ctx):
@@ -331,7 +523,8 @@ def my_floats(ctx):
 
 
 def cases(ctx):
-  n = len(my_part(ctx)) + int(ctx.params['random']) + len(my_floats(ctx))
+  n = (len(my_part(ctx)) + int(ctx.params['random']) + len(my_floats(ctx))
+       + len(my_extras(ctx)))
   cap = ctx.params.get('cases')          # development only (PGVERIF_P_cases)
   return min(n, int(cap)) if cap else n
 
@@ -366,6 +559,71 @@ def numbers(d):
   return tuple(d.to_numbers())
 
 
+def same_shape(a, b):
+  """Equality of two (value, children) trees in which NaN equals NaN."""
+  same = (a.value == b.value or (a.value != a.value and b.value != b.value))
+  return (same and type(a.value) is type(b.value)
+          and len(a.children) == len(b.children)
+          and all(same_shape(x, y) for x, y in zip(a.children, b.children)))
+
+
+def mutation_of(base, t):
+  """The rebind that turns the DNA of tree `base` into the DNA of tree `t`:
+  {path: new value / new children} at the deepest node that covers the
+  difference (paths are those of a pg.DNA: `children[i]...value`)."""
+  path = ''
+  while (same_shape(G.Node(base.value, []), G.Node(t.value, []))
+         and len(base.children) == len(t.children)):
+    diff = [i for i, (x, y) in enumerate(zip(base.children, t.children))
+            if not same_shape(x, y)]
+    if len(diff) != 1:
+      break
+    path += 'children[%d].' % diff[0]
+    base, t = base.children[diff[0]], t.children[diff[0]]
+  upd = {}
+  if not same_shape(G.Node(base.value, []), G.Node(t.value, [])):
+    upd[path + 'value'] = t.value
+  if (len(base.children) != len(t.children) or
+      any(not same_shape(x, y) for x, y in zip(base.children, t.children))):
+    upd[path + 'children'] = [make_dna(ch) for ch in t.children]
+  return upd
+
+
+def check_mutated(ctx, rng, desc, spec, m, t, name, case):
+  """A member DNA that is bound to the spec and then changed in place
+  (rebind, public on every symbolic object) into the non-member `t`: binding
+  it again - to the same spec object or to an equal spec built again - and
+  validate must reject it like the same tree built afresh."""
+  c = ctx.counters
+  base = G.tree(desc, m)
+  d = make_dna(base, spec)
+  upd = mutation_of(base, t)
+  try:
+    d.rebind(upd)
+  except Exception:  # pylint: disable=broad-except
+    c['mutation_refused'] += 1          # e.g. the value field rejects the type
+    return
+  if not same_shape(dna_shape(d), t):
+    c['mutation_reshaped'] += 1
+    return
+  how = '; '.join(sorted(upd))
+  origin = (f'member {G.nested(base)!r:.300} bound with DNA(..., spec=), then '
+            f'rebind of {how} into {tree_src(t):.300} ({name})')
+  ok, _ = accepts(lambda: spec.validate(d))
+  c['nonmember_mutated_validate'] += 1
+  if ok:
+    ctx.violation('nonmember-accepted', 'validate[bound-then-mutated]',
+                  f'validate accepted: {origin}', case)
+  rel = 'equal-spec' if rng.random() < 0.25 else 'same-spec-object'
+  target = spec if rel == 'same-spec-object' else build(desc)
+  ok, _ = accepts(lambda: d.use_spec(target))
+  c['nonmember_mutated_bind'] += 1
+  c['nonmember_mutated_bind:' + rel] += 1
+  if ok:
+    ctx.violation('nonmember-accepted', f'use_spec[bound-then-mutated]:{rel}',
+                  f'use_spec({rel}) accepted: {origin}', case)
+
+
 def point_of_first_diff(desc, ref, i):
   """Kind of the decision point that changes between ref[i-1] and ref[i]."""
   if not ref:
@@ -397,6 +655,45 @@ def wrong_size_point(desc, spec):
     if got != (-1 if exp is None else exp):
       return G.kind(e)
   return None
+
+
+def wrong_size_node(desc, spec):
+  """Innermost node of the spec tree whose space_size is not the reference's
+  reported size: the kind of a decision point, or `space` for a (sub-)space
+  whose elements all report the right size."""
+  for e, s in zip(desc['elems'], spec.elements):
+    if e['t'] == 'choice':
+      for c, cs in zip(e['cands'], s.candidates):
+        r = wrong_size_node(c, cs)
+        if r:
+          return r
+    if s.space_size != G.reported_elem_size(e):
+      return G.kind(e)
+  if spec.space_size != G.reported_size(desc):
+    return 'space'
+  return None
+
+
+def check_size(ctx, desc, spec, case):
+  """space_size against the reference: the number of members, -1 as soon as
+  one float or custom point is reachable."""
+  c = ctx.counters
+  want = G.reported_size(desc)
+  sz = lib_call(ctx, 'space_size', lambda: spec.space_size, case)
+  c['size_checks'] += 1
+  if want == -1:
+    c['size_checks_infinite'] += 1
+    c['size_checks_infinite:direct=%d' % min(G.max_infinite_direct(desc), 4)] += 1
+  if isinstance(sz, Raised) or sz == want:
+    return
+  if want == -1:
+    ctx.violation('size', 'space_size[infinite]:' + (wrong_size_node(desc, spec) or 'space'),
+                  f'space_size {sz}, reference -1 (a float or custom point is '
+                  f'reachable; at most {G.max_infinite_direct(desc)} infinite '
+                  f'elements directly in one space)', case)
+  else:
+    ctx.violation('size', 'space_size:' + (wrong_size_point(desc, spec) or 'space'),
+                  f'space_size {sz}, reference {want}', case)
 
 
 # --------------------------------------------------------------------------
@@ -475,7 +772,8 @@ def corruptions(rng, desc, flat):
               ('float-low-ulp', math.nextafter(lo, -math.inf)),
               ('float-high-ulp', math.nextafter(hi, math.inf)),
               ('float-int', int(lo) if float(int(lo)) >= lo else int(hi)),
-              ('float-str', repr(pt.value)), ('float-none', None)]
+              ('float-str', repr(pt.value)), ('float-none', None),
+              ('float-nan', math.nan)]
     else:
       vals = [('custom-int', 3), ('custom-float', 0.5), ('custom-none', None)]
     for name, v in vals:
@@ -539,7 +837,8 @@ def flat_corruptions(rng, desc, flat):
         c[pt.pos] = v
         out.append((name, c))
     elif pt.elem['t'] == 'float':
-      for name, v in (('float-low', pt.elem['lo'] - 1.0), ('float-high', pt.elem['hi'] + 1.0)):
+      for name, v in (('float-low', pt.elem['lo'] - 1.0), ('float-high', pt.elem['hi'] + 1.0),
+                      ('float-nan', math.nan)):
         c = list(flat)
         c[pt.pos] = v
         out.append((name, c))
@@ -633,7 +932,7 @@ def check_nonmembers(ctx, rng, desc, spec, members, case, all_kinds=False):
       seen_kinds.add(cls)
       tried += 1
       key = (name, knd)
-      if shape != t:
+      if not same_shape(shape, t):
         c['corruption_reshaped'] += 1
         key = ('reshaped', 'tree')
       c['corruption:' + key[0]] += 1
@@ -647,12 +946,16 @@ def check_nonmembers(ctx, rng, desc, spec, members, case, all_kinds=False):
       c['nonmember_validate'] += 1
       if ok:
         ctx.violation('nonmember-accepted', f'validate:{key[0]}:{key[1]}',
-                      f'validate accepted {src} = {d!r} ({origin})', case)
-      ok, _ = accepts(lambda: make_dna(t, spec))
+                      f'validate accepted {src} = {d!r:.600} ({origin:.600})', case)
+      ok2, _ = accepts(lambda: make_dna(t, spec))
       c['nonmember_bind'] += 1
-      if ok:
+      if ok2:
         ctx.violation('nonmember-accepted', f'bind:{key[0]}:{key[1]}',
-                      f'{src[:-1]}, spec=) accepted ({origin})', case)
+                      f'{src[:-1]:.600}, spec=) accepted ({origin:.600})', case)
+      # the same non-member reached by changing a bound member in place
+      # (judged only where the tree built afresh is rejected by both)
+      if key[0] == name and not ok and not ok2:
+        check_mutated(ctx, rng, desc, spec, m, t, name, case)
     seen = set()
     for name, flat in flat_corruptions(rng, desc, m):
       if name in seen or G.is_member(desc, flat):
@@ -847,8 +1150,8 @@ def sweep_history(ctx, rng, desc, spec, exp, sweep_all, nsweep, case):
       ctx.violation('sweeping', mech,
                     f'history {steps!r}: after setup({name}) ({rel}, the '
                     f'generator had proposed {before} since its previous '
-                    f'setup) proposed {s[:6]!r}... ({len(s)}), reference '
-                    f'{want[:6]!r}... ({len(want)})', case)
+                    f'setup) proposed {briefs(s[:6])!r}... ({len(s)}), reference '
+                    f'{briefs(want[:6])!r}... ({len(want)})', case)
       return
     if rel != 'fresh':
       c['sweeping_reuse_checks'] += 1
@@ -861,12 +1164,14 @@ def sweep_history(ctx, rng, desc, spec, exp, sweep_all, nsweep, case):
 
 
 def check_finite(ctx, rng, desc, spec, size, case, exhaustive=False):
-  """Iteration, size, order, end, next_dna, Sweeping for a finite space."""
+  """Iteration, size, order, end, next_dna, Sweeping for a space that can be
+  iterated to its end (`size` members: choices and enumerable custom points)."""
   c = ctx.counters
+  ordered = G.increasing_customs(desc)
   full = exhaustive or size <= ctx.params['random_max']
   limit = size if full else ctx.params.get('prefix', 60)
   ref = []
-  for m in G.enumerate_flat(desc):
+  for m in G.enumerate_members(desc):
     ref.append(m)
     if len(ref) >= limit + (0 if full else 1):
       break
@@ -890,7 +1195,7 @@ def check_finite(ctx, rng, desc, spec, size, case, exhaustive=False):
     while i < min(len(got), len(exp)) and got[i] == exp[i]:
       i += 1
     mech = 'iter_dna:' + point_of_first_diff(desc, ref, i)
-    detail = (f'position {i}: got {got[i:i + 3]!r}, reference {exp[i:i + 3]!r}; '
+    detail = (f'position {i}: got {briefs(got[i:i + 3])!r}, reference {briefs(exp[i:i + 3])!r}; '
               f'{len(got)} iterated, {len(exp)} expected')
     if full and len(got) != len(set(got)):
       ctx.violation('iter-duplicate', mech, detail, case)
@@ -901,13 +1206,12 @@ def check_finite(ctx, rng, desc, spec, size, case, exhaustive=False):
     else:
       ctx.violation('iter-set', mech, detail, case)
   # -- size
-  sz = lib_call(ctx, 'space_size', lambda: spec.space_size, case)
-  c['size_checks'] += 1
-  if not isinstance(sz, Raised) and sz != size:
-    ctx.violation('size', 'space_size:' + (wrong_size_point(desc, spec) or 'space'),
-                  f'space_size {sz}, reference {size}', case)
+  check_size(ctx, desc, spec, case)
   # -- strictly increasing under the library's <, agreement with the reference
-  for a, b in zip(dnas, dnas[1:]):
+  # (the order of a custom point is its user's: judged when it increases)
+  if not ordered:
+    c['order_left_to_user'] += 1
+  for a, b in zip(dnas, dnas[1:]) if ordered else ():
     c['lt_checks'] += 1
     try:
       ok = (a < b) and not (b < a) and a != b and not (a == b)
@@ -915,9 +1219,9 @@ def check_finite(ctx, rng, desc, spec, size, case, exhaustive=False):
       ok = False
     if not ok:
       ctx.violation('not-increasing', 'DNA.__lt__',
-                    f'{a!r} then {b!r}', case)
+                    f'{a!r:.300} then {b!r:.300}', case)
       break
-  if len(dnas) >= 2 and got == exp:
+  if len(dnas) >= 2 and got == exp and ordered:
     for _ in range(min(12, len(dnas))):
       i, j = rng.randrange(len(dnas)), rng.randrange(len(dnas))
       c['lt_checks'] += 1
@@ -929,7 +1233,7 @@ def check_finite(ctx, rng, desc, spec, size, case, exhaustive=False):
         have, eq = repr(e), None
       if have != want or eq != (want == 0):
         ctx.violation('lt-disagrees', 'DNA.__lt__',
-                      f'{dnas[i]!r} vs {dnas[j]!r}: library {have}/{eq}, '
+                      f'{dnas[i]!r:.300} vs {dnas[j]!r:.300}: library {have}/{eq}, '
                       f'reference {want}', case)
         break
   # -- next_dna from DNAs rebuilt from raw numbers
@@ -938,11 +1242,14 @@ def check_finite(ctx, rng, desc, spec, size, case, exhaustive=False):
     for _ in range(ctx.params.get('next_picks', 3)):
       picks.add(rng.randrange(len(ref)))
     for j in sorted(picks):
+      # (the DNA as built, or sealed: a sealed member has the same successor)
+      sealed = rng.random() < 0.4
       def nxt():
         d = pg.DNA(G.nested(G.tree(desc, ref[j])))
-        return spec.next_dna(d)
-      n = lib_call(ctx, 'next_dna', nxt, case)
+        return spec.next_dna(d.seal() if sealed else d)
+      n = lib_call(ctx, 'next_dna[sealed]' if sealed else 'next_dna', nxt, case)
       c['next_checks'] += 1
+      c['next_checks_sealed'] += sealed
       if isinstance(n, Raised):
         continue
       want = ref[j + 1] if j + 1 < len(ref) else None
@@ -950,7 +1257,7 @@ def check_finite(ctx, rng, desc, spec, size, case, exhaustive=False):
       if have != want:
         clause = 'next-after-last' if want is None else 'next-wrong'
         ctx.violation(clause, 'next_dna:' + point_of_first_diff(desc, ref, j + 1),
-                      f'next_dna({ref[j]!r}) = {have!r}, reference {want!r}', case)
+                      f'next_dna({brief(ref[j])!r}) = {brief(have)!r}, reference {brief(want)!r}', case)
     # first_dna and DNA.next_dna()/iter_dna() on a bound DNA
     def first():
       f = spec.first_dna()
@@ -964,7 +1271,8 @@ def check_finite(ctx, rng, desc, spec, size, case, exhaustive=False):
     r = lib_call(ctx, 'first_dna', first, case)
     c['next_checks'] += 1
     if not isinstance(r, Raised) and (r[0] != ref[0] or r[1] != ref[1:1 + nfirst]):
-      ctx.violation('next-wrong', 'first_dna', f'{r!r} vs {ref[:1 + nfirst]!r}', case)
+      ctx.violation('next-wrong', 'first_dna', f'{brief(r[0])!r}, {briefs(r[1])!r} vs '
+                    f'{briefs(ref[:1 + nfirst])!r}', case)
   # -- Sweeping: the whole sequence and its end for spaces of <= sweep_full
   # members, else the first sweep_prefix proposals; on a fresh generator or on
   # one that was used before (see sweep_history)
@@ -982,30 +1290,38 @@ def run_case(ctx, i):
   if i < len(part):
     desc = part[i]
     c['exhaustive_cases'] += 1
+  elif i >= len(part) + nrandom + len(my_floats(ctx)):
+    desc = my_extras(ctx)[i - len(part) - nrandom - len(my_floats(ctx))]
+    c['exhaustive_cases'] += 1
+    c['custom_family_cases' if desc.get('custom_family') else 'infinite_family_cases'] += 1
   elif i >= len(part) + nrandom:
     desc = my_floats(ctx)[i - len(part) - nrandom]
     c['exhaustive_cases'] += 1
     c['float_family_cases'] += 1
   else:
     c['random_cases'] += 1
-    fl = rng.choice([0.0, 0.0, 0.15, 0.3])
-    desc = S.random_space(rng, max_depth=rng.choice([1, 2, 3]), max_elems=3,
+    fl = rng.choice([0.0, 0.0, 0.15, 0.3, 0.5])
+    desc = S.random_space(rng, max_depth=rng.choice([1, 2, 3]), max_elems=rng.choice([3, 3, 5]),
                           max_k=3, max_n=4, floats=fl, customs=fl / 3)
     vary_floats(desc, rng)
+    vary_customs(desc, rng)
   case = {'space': show(desc)}
   spec = lib_call(ctx, 'build-spec', lambda: build(desc), case)
   if isinstance(spec, Raised):
     return
-  size = G.size(desc)
+  size = G.size(desc)             # None: reported as infinite
+  nenum = G.enum_size(desc)       # None: cannot be iterated
   members = dnas = None
-  if size is not None:
-    c['finite_specs'] += 1
-    members, dnas = check_finite(ctx, rng, desc, spec, size, case,
-                                 exhaustive=i < len(part))
+  del FOREIGN[:]
+  if nenum is not None:
+    c['finite_specs' if size is not None else 'enumerable_custom_specs'] += 1
+    members, dnas = check_finite(ctx, rng, desc, spec, nenum, case,
+                                 exhaustive=i < len(part) or bool(desc.get('custom_family')))
+    for v in {v for e in G.custom_elems(desc) for v in e.get('values') or ()}:
+      ctx.seen('custom_genomes_enumerated', string_name(v))
   else:
     c['infinite_specs'] += 1
-    sz = lib_call(ctx, 'space_size', lambda: spec.space_size, case)
-    c['size_infinite_observed:' + str(sz)] += 1
+    check_size(ctx, desc, spec, case)
   # every iterated DNA (they equal the reference members here) has the
   # documented shape and is accepted by validate
   if dnas is not None:
@@ -1030,13 +1346,15 @@ def run_case(ctx, i):
     sample = [members[0], members[-1]] + [rng.choice(members) for _ in range(nm - 2)]
   else:
     safe = SafeRandom(rng.randrange(1 << 30))
-    sample = [G.random_member(desc, safe) for _ in range(nm)]
+    sample = [G.random_member_from(desc, safe, HOSTILE + ['abc'])
+              for _ in range(nm)]
   check_members(ctx, desc, spec, sample, case)
   check_nonmembers(ctx, rng, desc, spec,
                    [rng.choice(sample) for _ in range(ctx.params['corrupt'])], case,
                    all_kinds=(size is None and i < len(part)
                               and not desc.get('float_family')))
   check_random(ctx, rng, desc, spec, case)
+  c['custom_fn_foreign_argument'] += len(FOREIGN)
   if (size is None or size >= 2) and (
       any(e['t'] == 'choice' and (e['k'] > 1 or any(cd['elems'] for cd in e['cands']))
           for e in desc['elems'])):
@@ -1044,4 +1362,4 @@ def run_case(ctx, i):
   ctx.seen('sizes', size)
   if i < 2:
     ctx.sample({'space': show(desc), 'size': size,
-                'first_members': [list(m) for m in sample[:3]]})
+                'first_members': [brief(m) for m in sample[:3]]})
